@@ -31,4 +31,9 @@ def handleWof : List String → String
     | .crash e => "crash " ++ e
   | _ => "bad-op"
 
+/-- `lit <line>` -> the line as `_literal_lines` passes it on -/
+def handleLit : List String → String
+  | [line] => encStr (protect (decStr line))
+  | _ => "bad-op"
+
 end Driver
